@@ -910,11 +910,19 @@ class FunctionBuilder:
         """Add an argument with optional *default* (defaults to
         ``funcutils.NO_DEFAULT``). Pass *kwonly=True* to add a
         keyword-only argument
+
+        An argument without a default cannot follow positional
+        arguments that have defaults, so in that case it is added as a
+        keyword-only argument, too.
         """
         if arg_name in self.args:
             raise ExistingArgument(f'arg {arg_name!r} already in func {self.name} arg list')
         if arg_name in self.kwonlyargs:
             raise ExistingArgument(f'arg {arg_name!r} already in func {self.name} kwonly arg list')
+        if default is NO_DEFAULT and self.defaults:
+            # appending to args would hand the last existing default
+            # to the new argument (defaults are matched from the end)
+            kwonly = True
         if not kwonly:
             self.args.append(arg_name)
             if default is not NO_DEFAULT:
